@@ -267,13 +267,22 @@ func trav(r *Run, focus string) {
 	tw.allHonest = allHonest
 	// ---- sizes
 	var N int
-	switch ch.Pick([]int{2, 5, 3}, "n.class") {
+	bigDead := false
+	switch ch.Pick([]int{4, 10, 6, 1}, "n.class") {
 	case 0:
 		N = ch.Intn(4, "n")
 	case 1:
 		N = ch.Range(3, 25, "n")
-	default:
+	case 2:
 		N = ch.Range(20, 80, "n")
+	default:
+		// a big seed list that is mostly dead: hundreds of candidates wait at once and too
+		// few of them answer to fill the result set, so every one of them must be tried
+		N = ch.Range(100, 400, "n")
+		bigDead = !allHonest
+		if bigDead {
+			r.Probe("big-mostly-dead-seed-list")
+		}
 	}
 	tw.K = ch.Pick([]int{1, 1, 1, 1, 1, 1, 1, 1, 3, 1, 1, 1, 1, 1, 1, 1, 2, 1, 1, 1, 1}, "K") // 0..20, 8 more likely, 0 = default
 	tw.A = ch.Pick([]int{1, 2, 2, 4, 2, 1, 1, 1, 1}, "alpha")                                 // 0..8
@@ -361,6 +370,9 @@ func trav(r *Run, focus string) {
 			n.beh, n.tok = 0, 0
 		} else {
 			n.beh = ch.Pick([]int{5, 3, 2, 2, 1}, "beh")
+			if bigDead && r.Rng.Intn(20) > 0 {
+				n.beh = 3 // silent
+			}
 			if !adversarial && n.beh == 2 {
 				n.beh = 1
 			}
@@ -535,7 +547,13 @@ func trav(r *Run, focus string) {
 			return n
 		})
 	}
-	if allHonest && N > 0 {
+	if bigDead {
+		var all []types.AddrMaybeId
+		for _, n := range tw.nodes {
+			all = append(all, types.AddrMaybeId{Addr: n.addr.ToNodeAddrPort(), Id: generics.Some(int160.FromByteArray(n.listID))})
+		}
+		addNodes("seed", all)
+	} else if allHonest && N > 0 {
 		// non-empty seed set for the honest clause
 		addNodes("seed", []types.AddrMaybeId{{Addr: tw.nodes[ch.Intn(N, "seed.i")].addr.ToNodeAddrPort()}})
 	} else {
